@@ -6,6 +6,7 @@ CONSTANTS
   MaxMods = 4
   WorkUnits = {1, 2, 9}
   MaxCounter = 1
+  AllocWhileCounter = FALSE
 CONSTRAINT Bounded
 INVARIANTS Stable Injective ModulePartsPermanent PermanentFlagged TempNamesDistinct InternOK CursorOK MarkedSinceOK ReclaimedOK
 PROPERTIES NoLiveReclaim FreshAfterReclaim DeadStaysDead
